@@ -54,6 +54,7 @@ type ConvSpec struct {
 	AckEach    bool   // the receiver acknowledges every data segment with an empty ACK
 	CISN, SISN uint32
 	GapBefore  time.Duration // idle time before the first packet (only with interleaving "seq")
+	Frag       int           // >0: every packet with payload travels as two IPv4 fragments, the second starting at byte 8*Frag of the IP payload
 }
 
 type ConvSet struct {
@@ -75,6 +76,11 @@ type Pkt struct {
 	Retx                    bool          // an inserted duplicate
 	Tie                     bool          // same timestamp as the previous packet of the capture
 	Gap                     time.Duration // idle time before this packet
+	V6                      bool
+	// IPv4 fragmentation: the packet is one of the two fragments (1 = first, 2 = last) of the
+	// datagram described by the other fields; FragOff is the offset of the last fragment in 8-byte units
+	FragPart, FragOff int
+	FragID            uint16
 	// layout
 	TS    time.Time
 	File  int
@@ -87,6 +93,11 @@ func (p *Pkt) handshake() bool {
 }
 
 func (p *Pkt) String() string {
+	if p.FragPart != 0 {
+		q := *p
+		q.FragPart = 0
+		return fmt.Sprintf("%s frag%d/2@%d", q.String(), p.FragPart, p.FragOff*8)
+	}
 	if p.UDP {
 		return fmt.Sprintf("c%d %s udp %q", p.Conv, dirName(p.Dir), p.Payload)
 	}
@@ -116,6 +127,9 @@ func dirName(d int) string {
 //	swap   conv I        packets I and I+1 of the conversation exchange their capture positions
 //	retx   conv I P Mode a copy (full | head | tail half) of data packet I follows packet P (P>=I)
 //	tie    -    I        packet I+1 of the whole capture carries the same timestamp as packet I
+//	frag   conv I P Mode IPv4 packet I (with payload) travels as two IP fragments, the second starting at
+//	                     byte 8*P of the IP payload (transport header included); Mode "rev": the last
+//	                     fragment is captured first
 type Dev struct {
 	Kind string `json:"k"`
 	Conv int    `json:"c"`
@@ -134,6 +148,8 @@ func (d Dev) String() string {
 		return fmt.Sprintf("retx(c%d.%d>%d,%s)", d.Conv, d.I, d.P, d.Mode)
 	case "tie":
 		return fmt.Sprintf("tie(%d)", d.I)
+	case "frag":
+		return fmt.Sprintf("frag(c%d.%d@%d%s)", d.Conv, d.I, d.P*8, d.Mode)
 	}
 	return "?" + d.Kind
 }
@@ -204,6 +220,26 @@ type Capture struct {
 	Files   []string
 	Truth   []*Truth
 	owner   map[PktRef]int
+}
+
+// SplitDatagrams counts the fragmented datagrams whose two fragments lie in different capture files.
+func (c *Capture) SplitDatagrams() int {
+	file := map[[2]int]int{}
+	n := 0
+	for _, p := range c.Packets {
+		if p.FragPart == 0 {
+			continue
+		}
+		k := [2]int{p.Conv, int(p.FragID)}
+		if f, ok := file[k]; ok {
+			if f != p.File {
+				n++
+			}
+		} else {
+			file[k] = p.File
+		}
+	}
+	return n
 }
 
 func (c *Capture) Owner(r PktRef) (int, bool) {
@@ -323,6 +359,34 @@ var trafficSets = []*ConvSet{
 		udp("b", "10.0.6.1", 40001, "10.0.6.2", 52, cm("b0"), sm("B1")),
 		udp("c", "10.0.6.1", 40002, "10.0.6.2", 55, cm("c0")),
 	}},
+	// every datagram / data segment travels as two IPv4 fragments (cut behind the first 8 bytes of UDP data,
+	// behind the first 4 bytes of TCP data); deviations then reorder and interleave the fragments
+	{Name: "udp4-frags", Interleaves: single, Convs: []ConvSpec{
+		func() ConvSpec {
+			c := udp("u", "10.0.7.1", 7000, "10.0.7.2", 7001, cm("0123456789abcdefghij"), sm("ABCDEFGHIJKLMNOPQRSTUVWXYZ"), cm("second-request-bytes"))
+			c.Frag = 2
+			return c
+		}(),
+	}},
+	{Name: "tcp4-frags", Interleaves: single, Convs: []ConvSpec{
+		func() ConvSpec {
+			c := tcp("t", "10.0.7.1", 47000, "10.0.7.2", 8081, 3000, 9000, "fin-c", cm("GET /index.html"), sm("HTTP/1.0 200 OK hello"), cm("thanks, bye"))
+			c.Frag = 3
+			return c
+		}(),
+	}},
+	{Name: "frags-x2", Interleaves: multi, Convs: []ConvSpec{
+		func() ConvSpec {
+			c := udp("a", "10.0.7.1", 7100, "10.0.7.2", 7101, cm("aaaaaaaaaaaaaaaaaaaaaaaa-1"), sm("AAAAAAAAAAAAAAAAAAAA-2"))
+			c.Frag = 2
+			return c
+		}(),
+		func() ConvSpec {
+			c := udp("b", "10.0.7.1", 7200, "10.0.7.2", 7201, cm("bbbbbbbbbbbbbbbbbb-1"), sm("BBBBBBBBBBBBBBBBBBBBBBBBBBBB-2"))
+			c.Frag = 2
+			return c
+		}(),
+	}},
 	// snapshot sets: a filler of short closed connections large enough to make the importer write
 	// a reassembly snapshot, placed in the middle of / before the interesting conversation
 	{Name: "snap-mid", Huge: true, Step: time.Millisecond, Interleaves: []string{"wrap:5"}, Convs: withFiller(
@@ -370,6 +434,22 @@ func SetByName(n string) *ConvSet {
 // default rendering of one conversation
 
 func basePackets(spec *ConvSpec, conv int) []*Pkt {
+	out := basePackets0(spec, conv)
+	v6 := net.ParseIP(spec.CIP).To4() == nil
+	for _, p := range out {
+		p.V6 = v6
+	}
+	if spec.Frag > 0 {
+		for i := len(out) - 1; i >= 0; i-- {
+			if l, err := applyConvDev(out, Dev{Kind: "frag", Conv: conv, I: i, P: spec.Frag}); err == nil {
+				out = l
+			}
+		}
+	}
+	return out
+}
+
+func basePackets0(spec *ConvSpec, conv int) []*Pkt {
 	var out []*Pkt
 	if spec.Proto == "UDP" {
 		for _, m := range spec.Msgs {
@@ -424,7 +504,7 @@ func applyConvDev(list []*Pkt, d Dev) ([]*Pkt, error) {
 	cp := func(q *Pkt) *Pkt { c := *q; return &c }
 	switch d.Kind {
 	case "split", "ovl":
-		if p.UDP || len(p.Payload) < 2 || d.P < 1 || d.P >= len(p.Payload) || p.SYN || p.closing() {
+		if p.UDP || len(p.Payload) < 2 || d.P < 1 || d.P >= len(p.Payload) || p.SYN || p.closing() || p.FragPart != 0 {
 			return nil, fmt.Errorf("%v: not splittable", d)
 		}
 		a, b := cp(p), cp(p)
@@ -451,7 +531,7 @@ func applyConvDev(list []*Pkt, d Dev) ([]*Pkt, error) {
 		out[d.I], out[d.I+1] = q, p
 		return out, nil
 	case "retx":
-		if len(p.Payload) == 0 || p.SYN || p.closing() || d.P < d.I || d.P >= len(list) {
+		if len(p.Payload) == 0 || p.SYN || p.closing() || d.P < d.I || d.P >= len(list) || p.FragPart != 0 {
 			return nil, fmt.Errorf("%v: nothing to retransmit", d)
 		}
 		if !p.UDP {
@@ -484,6 +564,26 @@ func applyConvDev(list []*Pkt, d Dev) ([]*Pkt, error) {
 		out := append([]*Pkt{}, list[:d.P+1]...)
 		out = append(out, c)
 		return append(out, list[d.P+1:]...), nil
+	case "frag":
+		hdr := 20
+		if p.UDP {
+			hdr = 8
+		}
+		if p.V6 || len(p.Payload) == 0 || p.SYN || p.closing() || p.FragPart != 0 || d.P < 1 || d.P*8 >= hdr+len(p.Payload) || (d.Mode != "" && d.Mode != "rev") {
+			return nil, fmt.Errorf("%v: not fragmentable", d)
+		}
+		a, b := cp(p), cp(p)
+		b.Gap = 0
+		a.FragPart, b.FragPart = 1, 2
+		a.FragOff, b.FragOff = d.P, d.P
+		id := uint16(0x8000 | (p.Conv&0x1f)<<10 | d.I&0x3ff)
+		a.FragID, b.FragID = id, id
+		if d.Mode == "rev" {
+			a.FragPart, b.FragPart = 2, 1
+		}
+		out := append([]*Pkt{}, list[:d.I]...)
+		out = append(out, a, b)
+		return append(out, list[d.I+1:]...), nil
 	}
 	return nil, fmt.Errorf("%v: unknown kind", d)
 }
@@ -495,6 +595,14 @@ func enumConvDevs(list []*Pkt, conv int) []Dev {
 		for _, k := range []string{"split", "ovl"} {
 			for pos := 1; pos < len(p.Payload); pos++ {
 				d := Dev{Kind: k, Conv: conv, I: i, P: pos}
+				if _, err := applyConvDev(list, d); err == nil {
+					out = append(out, d)
+				}
+			}
+		}
+		for pos := 1; pos*8 < 20+len(p.Payload); pos++ {
+			for _, m := range []string{"", "rev"} {
+				d := Dev{Kind: "frag", Conv: conv, I: i, P: pos, Mode: m}
 				if _, err := applyConvDev(list, d); err == nil {
 					out = append(out, d)
 				}
@@ -764,7 +872,26 @@ func Build(c Case) (*Capture, error) {
 		spec := &set.Convs[ci]
 		t := &Truth{Conv: ci, Name: spec.Name, Proto: spec.Proto, OrderClaimed: !crossSwap[ci]}
 		// true client of a UDP flow is the sender of the first captured datagram
-		flip := len(perConv[ci]) > 0 && perConv[ci][0].UDP && perConv[ci][0].Dir == S2C
+		// a datagram that travels in two IP fragments is complete when the later one is captured
+		fragSeen := map[uint16]bool{}
+		completes := func(p *Pkt) bool {
+			if p.FragPart == 0 {
+				return true
+			}
+			if fragSeen[p.FragID] {
+				return true
+			}
+			fragSeen[p.FragID] = true
+			return false
+		}
+		flip := false
+		for _, p := range perConv[ci] {
+			if completes(p) {
+				flip = p.UDP && p.Dir == S2C
+				break
+			}
+		}
+		fragSeen = map[uint16]bool{}
 		var msgs []Msg
 		for _, p := range perConv[ci] {
 			dir := p.Dir
@@ -773,8 +900,9 @@ func Build(c Case) (*Capture, error) {
 			}
 			ref := PktRef{cp.Files[p.File], p.Index}
 			cp.owner[ref] = ci
-			t.Packets = append(t.Packets, TruthPkt{Ref: ref, Dir: dir, Payload: len(p.Payload) > 0})
-			if p.UDP {
+			// which of the two fragments a stream refers to for their payload is not claimed
+			t.Packets = append(t.Packets, TruthPkt{Ref: ref, Dir: dir, Payload: len(p.Payload) > 0 && p.FragPart == 0})
+			if p.UDP && completes(p) {
 				msgs = append(msgs, Msg{Dir: dir, Data: string(p.Payload)})
 			}
 		}
@@ -904,6 +1032,9 @@ func (c *Capture) serialize(p *Pkt, link layers.LinkType, ipid uint16) ([]byte, 
 		nl = ip
 	} else {
 		ip := &layers.IPv4{Version: 4, IHL: 5, TTL: 64, Id: ipid, Flags: layers.IPv4DontFragment, Protocol: proto, SrcIP: src.To4(), DstIP: dst.To4()}
+		if p.FragPart != 0 {
+			ip.Flags, ip.Id = 0, p.FragID
+		}
 		ls = append(ls, ip)
 		nl = ip
 	}
@@ -926,7 +1057,42 @@ func (c *Capture) serialize(p *Pkt, link layers.LinkType, ipid uint16) ([]byte, 
 	if err := gopacket.SerializeLayers(buf, gopacket.SerializeOptions{FixLengths: true, ComputeChecksums: true}, ls...); err != nil {
 		return nil, err
 	}
-	return append([]byte{}, buf.Bytes()...), nil
+	whole := append([]byte{}, buf.Bytes()...)
+	if p.FragPart == 0 {
+		return whole, nil
+	}
+	// cut the IP payload (transport header and data, checksums computed over the whole datagram) in two
+	if v6 {
+		return nil, fmt.Errorf("fragmentation is generated for IPv4 only")
+	}
+	ipOff := 0
+	if link == layers.LinkTypeEthernet {
+		ipOff = 14
+	}
+	// (an Ethernet frame shorter than 60 bytes was padded: the datagram ends where its length field says)
+	body := whole[ipOff+20 : ipOff+int(whole[ipOff+2])<<8+int(whole[ipOff+3])]
+	cut := p.FragOff * 8
+	if cut <= 0 || cut >= len(body) {
+		return nil, fmt.Errorf("fragment offset %d outside the datagram of %d bytes", cut, len(body))
+	}
+	ip := &layers.IPv4{Version: 4, IHL: 5, TTL: 64, Id: p.FragID, Protocol: proto, SrcIP: src.To4(), DstIP: dst.To4()}
+	part := body[:cut]
+	if p.FragPart == 1 {
+		ip.Flags = layers.IPv4MoreFragments
+	} else {
+		ip.FragOffset = uint16(p.FragOff)
+		part = body[cut:]
+	}
+	var fl []gopacket.SerializableLayer
+	if link == layers.LinkTypeEthernet {
+		fl = append(fl, ls[0])
+	}
+	fl = append(fl, ip, gopacket.Payload(part))
+	fbuf := gopacket.NewSerializeBuffer()
+	if err := gopacket.SerializeLayers(fbuf, gopacket.SerializeOptions{FixLengths: true, ComputeChecksums: true}, fl...); err != nil {
+		return nil, err
+	}
+	return append([]byte{}, fbuf.Bytes()...), nil
 }
 
 // LinkType resolves the case's link name for this set ("raw" needs a single address family).
